@@ -31,7 +31,7 @@ EVIDENCE = {
 
 ROUTINES = [
     "det", "inv", "cof", "dev", "sym", "trace", "dya2", "dya1", "cdya_ik", "cdya_il", "cdya", "dot", "ddot", "dddot", "transpose1", "transpose2",
-    "cross", "eigh", "eigvalsh", "eig", "eigvals", "tovoigt", "von_mises", "inplane", "solve_nd", "solve_2d", "rotation", "strain1d", "linsteps", "identity",
+    "cross", "eigh", "eigvalsh", "eig", "eigvals", "tovoigt", "von_mises", "inplane", "solve_nd", "solve_2d", "rotation", "strain1d", "strain", "linsteps", "identity",
 ]
 DOT_MODES = [(2, 2), (1, 1), (4, 4), (2, 1), (1, 2), (2, 3), (3, 2), (4, 1), (1, 4), (2, 4), (4, 2)]
 DDOT_MODES = [(2, 2), (2, 4), (4, 2), (2, 3), (3, 2), (4, 4)]
@@ -65,6 +65,11 @@ def generate(seed, tier, k):
             op["axis"] = r.randrange(3)
         if name == "strain1d":
             op["k"] = r.choice([0, 1, 2, -2, 0.5])
+        if name == "strain":
+            op["k"] = r.choice([None, 0, 1, 2, -2, 0.5])
+            op["tensor"] = r.random() < 0.5
+            op["asvoigt"] = r.random() < 0.4
+            op["via"] = r.choice(["C", "C", "field", "evaluate"])
         if name == "linsteps":
             op["points"] = [round(r.uniform(-1, 1), 3) for _ in range(r.choice([1, 2, 3, 4]))]
             op["num"] = r.choice([1, 2, 5, [2, 3], [1, 4, 2]])
@@ -459,6 +464,47 @@ class Machine:
             self.check_ref(name, got, ref, site="strain_stretch_1d")
             self.unchanged(name, [lam], [dg], "plain")
             self.sigs.append(name)
+        elif name == "strain":
+            dd = max(d, 2)
+            k_ = op["k"]
+            kw = {} if k_ is None else {"k": k_}
+            f1 = (lambda lam: np.log(lam)) if not k_ else (lambda lam: (lam**k_ - 1) / k_)
+            via = op.get("via", "C")
+            if via == "C":
+                Fd = tensor(rng, (dd, dd), b, bcA, near_identity=True)
+                Cc = np.einsum("ki...,kj...->ij...", Fd, Fd)
+                dg = adigest(Cc)
+                got = fm.strain(None, C=Cc, tensor=op["tensor"], asvoigt=op["asvoigt"], **kw)
+                self.unchanged(name, [Cc], [dg], "plain")
+            else:
+                import felupe as fem
+
+                mesh = fem.Cube(n=2) if dd == 3 else fem.Rectangle(n=2)
+                region = fem.RegionHexahedron(mesh) if dd == 3 else fem.RegionQuad(mesh)
+                fld = fem.FieldContainer([fem.Field(region, dim=dd, values=0.2 * rng.normal(size=(mesh.npoints, dd)) * 0.3)])
+                Fd = fld.extract()[0]
+                Cc = np.einsum("ki...,kj...->ij...", Fd, Fd)
+                if via == "field":
+                    got = fm.strain(fld, tensor=op["tensor"], asvoigt=op["asvoigt"], **kw)
+                elif k_ in (None, 0):
+                    got = fld.evaluate.log_strain(tensor=op["tensor"], asvoigt=op["asvoigt"])
+                elif k_ == 2:
+                    got = fld.evaluate.green_lagrange_strain(tensor=op["tensor"], asvoigt=op["asvoigt"])
+                else:
+                    got = fld.evaluate.strain(tensor=op["tensor"], asvoigt=op["asvoigt"], **kw)
+            Ci = items(np.broadcast_to(Cc, Cc.shape[:2] + np.broadcast_shapes(Cc.shape[2:])), 2)
+            wv, Nv = np.linalg.eigh(Ci)
+            Ev = f1(np.sqrt(wv))
+            if not op["tensor"]:
+                ref = np.moveaxis(Ev, -1, 0)
+            else:
+                E = np.einsum("...a,...ia,...ja->...ij", Ev, Nv, Nv)
+                ref = np.moveaxis(E, (-2, -1), (0, 1))
+                if op["asvoigt"]:
+                    idx = [(0, 0), (1, 1), (0, 1)] if dd == 2 else [(0, 0), (1, 1), (2, 2), (0, 1), (1, 2), (0, 2)]
+                    ref = np.array([ref[i, j] * (1.0 if i == j else 2.0) for i, j in idx])
+            self.check_ref(name, got, ref, site=f"strain[tensor={op['tensor']},asvoigt={op['asvoigt'] and op['tensor']},k={k_},via={via}]", rtol=1e-9)
+            self.sigs.append(f"strain:{op['tensor']}:{op['asvoigt']}:{k_}:{via}")
         elif name == "linsteps":
             pts, num, endpoint = op["points"], op["num"], op["endpoint"]
             ax_n = op.get("axes", 2)
